@@ -162,6 +162,9 @@ def _rule_rest(chk, prefix, f, cfg, fcalls, writes, others, mparam, where):
         for c, m in calls_in_node(n):
             if id(c) in known or common.is_self_attr(c.func, "_dumps"):
                 continue
+            site = [s_ for s_ in ctx.cg.sites[f] if s_.call is c]
+            if site and ctx.cg.classify(site[0]) in ("builtin", "container", "stdlib"):
+                continue  # total, stateless helpers such as len()
             extra_calls.append(c)
     chk.req(not stores and not extra_calls, "%s.line" % prefix, "FileDestination.__call__:stateless", where,
             good="no attribute/subscript store and no call other than dumps/write/flush: nothing is buffered between calls",
